@@ -57,6 +57,12 @@ func (p *Prog) copySources(typ, field string) []ssa.Value {
 			}
 		}
 	}
+	// x.field = [N]byte(src): the whole array assigned from a slice
+	for _, st := range p.Stores(typ, field) {
+		if src := arrayConvSource(st.Val); src != unspill(st.Val) {
+			out = append(out, src)
+		}
+	}
 	return out
 }
 
